@@ -1,7 +1,7 @@
 """gen_instances.py -- regenerate coq/gen/GenParams.v and coq/gen/GenSchemas.v
 from /repo's current working tree.  Fail-closed: any construct that is not
 recognised aborts generation (reported as a broken proof obligation)."""
-import os, re, ast, sys, hashlib
+import os, re, ast, sys, hashlib, json
 
 HERE = os.path.dirname(os.path.abspath(__file__))
 VERIF = os.path.dirname(HERE)
@@ -153,9 +153,11 @@ def write_if_changed(path, txt):
         open(path, "w").write(txt)
 
 
-def generate():
-    """returns dict(ok, error, files: {name: sha256})"""
-    os.makedirs(GEN, exist_ok=True)
+def generate(write=True):
+    """returns dict(ok, error, files: {name: sha256}); write=False only computes the hashes (seedall.py: does a
+    seeded change alter the generated instances?)"""
+    if write:
+        os.makedirs(GEN, exist_ok=True)
     info = {"ok": True, "error": None, "files": {}}
     try:
         tap = module_constants(os.path.join(PKG, "server_tap.py"),
@@ -202,10 +204,15 @@ def generate():
         schemas = params
         sqltxt = params
     for name, txt in (("GenParams.v", params), ("GenSchemas.v", schemas), ("GenSql.v", sqltxt)):
-        write_if_changed(os.path.join(GEN, name), txt)
+        if write:
+            write_if_changed(os.path.join(GEN, name), txt)
         info["files"][name] = hashlib.sha256(txt.encode()).hexdigest()
     return info
 
+
+if __name__ == "__main__" and len(sys.argv) > 1 and sys.argv[1] == "--hash":
+    print(json.dumps(generate(write=False)["files"], sort_keys=True))
+    sys.exit(0)
 
 if __name__ == "__main__":
     print(generate())
